@@ -69,6 +69,13 @@ def make_cases(rng, tier, n):
                 srcs = [e for e in c["init"] if e[0] == "file"]
                 if srcs:
                     ops.append(("write", rng.choice(srcs)[1], "g:%d:%d" % (rng.randrange(1000), rng.choice([1, 5, 50]))))
+        if not cyclic and rng.random() < 0.25:
+            # a stage whose command fails (after logging itself): the run stops with an error, and the command ran ONCE
+            i = rng.randrange(ns)
+            code = rng.choice([1, 2, 126, 126, 127, 255])
+            ops += [("write", e[1], "g:%d:6" % rng.randrange(7000, 8000)) for e in c["init"] if e[0] == "file"][:2]
+            ops += [("setcmd", names[i], b"vfail S%d %d" % (i, code)), ("run", False, [])]
+            stats["failing_command_%d" % code] = stats.get("failing_command_%d" % code, 0) + 1
         c["ops"] = ops
         stats["stages_%d" % ns] = stats.get("stages_%d" % ns, 0) + 1
         stats["cyclic"] = stats.get("cyclic", 0) + (1 if cyclic else 0)
